@@ -243,7 +243,7 @@ def execute(scn, sb, ctx, k_i, kk):
         ctx['outputs'] = {'transposed': dst}
         out, s = harness.run_call(sched, drivers.run_transpose_v2, ctx['mat_path'], dst, sb.p('scratch'),
                                   ctx['n_cols'], use_data=scn['mat']['use_data'],
-                                  max_gb=cfg['max_gb'], n_processors=cfg['n_processors'])
+                                  max_gb=cfg['max_gb'], n_processors=kk.get('n_processors', cfg['n_processors']))
         dig = harness.h5_digest(dst) if out[0] == 'ok' else None
     scheds = KERNEL.calls[n0:]
     return out, dig, scheds
